@@ -38,6 +38,18 @@ func VerifRate(writeDelay, since time.Duration, chars int) (time.Duration, time.
 	return d, c.writeDelay
 }
 
+// VerifRateSeq passes several events to the real ircConn.rate back to back (no socket write in
+// between) on a connection whose last write was `since` ago; returns the delays and the final
+// accumulated delay.
+func VerifRateSeq(writeDelay, since time.Duration, chars []int) ([]time.Duration, time.Duration) {
+	c := &ircConn{writeDelay: writeDelay, lastWrite: time.Now().Add(-since)}
+	out := make([]time.Duration, 0, len(chars))
+	for _, n := range chars {
+		out = append(out, c.rate(n))
+	}
+	return out, c.writeDelay
+}
+
 // VerifModes exercises CModes.Parse/Apply on a fresh mode set.
 type VerifModes struct{ m CModes }
 
